@@ -1,9 +1,33 @@
 """
-Second wave: more of the functions the storage/progress properties (C02, C04, C08, C14, C16, C17, C18) depend on,
-under contract.
+Second wave (builder w2c): more of the functions the storage / progress properties (C02, C04, C08, C14, C16, C17, C18) depend on,
+put under contract.  D = deductive (all inputs of the declared domain, all paths), B = bounded stand-in.
 
-  X5d..X8d  kopf._cogs.structs.dicts: resolve / parse_field (X5d), ensure (X6d), remove (X7d), cherrypick / walk (X8d)  -- deductive
-          on arbitrary JSON documents (`vc.json`) for field paths of length 0..3.
+  progression.py
+    G4  B  format_iso8601 / parse_iso8601 round trip on 10^4 real datetimes (incl. microseconds, tz-aware and naive) and of whole
+           HandlerState objects through the JSON wire format -- the trusted pair of G1 / G5 (third-party iso8601 + datetime: bounded).
+    G5  D  HandlerState.for_storage / as_in_storage / from_scratch; from_storage(for_storage(s)) preserves every recorded field;
+           a reloaded unchanged state equals its origin.
+    G6  D  State.from_storage (reads exactly the owned ids; restart independence), State.store (exactly the changed states, then
+           flush), State.purge (owned ids + state ids + subrefs, nothing else).
+    G7  D  State.extras / counts / without_successes.
+    G8  D  deliver_results.
+  progress.py / diffbase.py  (per method, on SYMBOLIC JSON bodies and patches; dicts.* by contract)
+    E6  D  StatusProgressStorage __init__ / fetch / store / touch, NoWriteStatusProgressStorage store / touch   [finding F-C16-4]
+    E6p D  StatusProgressStorage purge / clear
+    E7  D  AnnotationsProgressStorage __init__ / fetch / store          E7p D  ... purge / touch
+    E8  D  MultiProgressStorage / MultiDiffBaseStorage fan-out (fetch first-found, store/purge/touch to all, clear/build threaded),
+           SmartProgressStorage composition
+    E9  D  AnnotationsDiffBaseStorage __init__/fetch/store/build, StatusDiffBaseStorage __init__/fetch/store/build
+    E9b D  DiffBaseStorage.build: the ignored_fields tail (concrete structure, symbolic leaves), __init__, the field setters
+    What stays bounded there: json.dumps/loads round trip and blake2b key forming end to end (E5, E4b), AnnotationsProgressStorage.clear
+    and the body of DiffBaseStorage.build (E1, E2b: iteration over symbolic mappings / str.split are outside the engine).
+  dicts.py  (on arbitrary JSON documents `vc.json`, field paths of 0..3 ARBITRARY names -- the recursion depth is then concrete)
+    X5d D  resolve, parse_field      X6d D  ensure      X7d D  remove      X8d D  cherrypick [known F-C04-3], walk
+  diffs.py
+    E3d D  diff_iter / reduce_iter for documents of DEPTH <= 1 with symbolic leaves (deeper: the bounded E3).
+
+One specification serves the symbolic run and the concrete CPython re-run: documents are J terms in both (`jt`), spec formulas are
+decided by z3 on ground terms in the concrete run (`holds`).
 """
 import copy
 import itertools
@@ -951,13 +975,67 @@ NULL = J.JNull
 EMPTY_OBJ = J.JObj(EMPTY_FIELDS)
 
 
-def inlined_dicts(vc):
-    """The real dicts.resolve/ensure/remove (mechanically extracted, run on the symbolic documents): inlined callees, each
-    under its own contract X5d/X6d/X7d."""
-    out = {f'dicts.{n}': vc.load(DICTS, n).fn for n in ('resolve', 'ensure', 'remove')}
+def _unwrap(d, path=()):
+    """A document behind mapping views (bodies.Body, Meta, ...): -> (the raw document, the path prefix of the view)."""
+    from kopf._cogs.structs import dicts
+    path = tuple(path)
+    while isinstance(d, (dicts.MappingView, SymPatch)):
+        if isinstance(d, SymPatch):
+            path, d = d._w2_path + path, d._w2_raw
+        else:
+            path, d = tuple(d._path) + path, d._src
+    return d, path
+
+
+def contract_dicts(vc):
+    """
+    dicts.resolve / ensure / remove BY CONTRACT (their specifications spec_resolve / spec_ensure / spec_remove, proved of the real
+    code in X5d / X6d / X7d): the callers below are verified against these contracts, not against the callee bodies.
+    On a symbolic document the stub decides the contract's case by ONE fork and returns / writes what the specification says;
+    in the concrete re-run the real functions are the implementation of the contract.
+    """
+    from kopf._cogs.structs import dicts
+    unset = dicts._UNSET.token
+
+    def resolve_(d, field, default=unset):
+        raw, path = _unwrap(d, dicts.parse_field(field))
+        if not isinstance(raw, SJson):
+            return dicts.resolve(d, field, default) if default is not unset else dicts.resolve(d, field)
+        found, missing, nonmap, value = spec_resolve(raw.term, path)
+        eng = E()
+        if eng.branch(found):
+            view = SJson(raw.root, raw.path + tuple(sval(k) for k in path))
+            return None if eng.branch(J.is_JNull(view.term)) else view
+        if default is not unset:
+            return default
+        if eng.branch(missing):
+            raise KeyError(path)
+        raise TypeError('The structure is not a dict with field')
+
+    def ensure_(d, field, value):
+        raw, path = _unwrap(d, dicts.parse_field(field))
+        if not isinstance(raw, SJson):
+            return dicts.ensure(d, field, value)
+        if not path:
+            raise ValueError('Setting a root of a dict is impossible.')
+        ok, after = spec_ensure(raw.term, path, jt(value))
+        if not E().branch(ok):
+            raise TypeError('a present parent is not a mapping')
+        raw._write(z3.simplify(after))
+
+    def remove_(d, field):
+        raw, path = _unwrap(d, dicts.parse_field(field))
+        if not isinstance(raw, SJson):
+            return dicts.remove(d, field)
+        if not path:
+            raise ValueError('Removing a root of a dict is impossible.')
+        ok, after = spec_remove(raw.term, path)
+        if not E().branch(ok):
+            raise TypeError('a present non-mapping on the way')
+        raw._write(z3.simplify(after))
     for n, c in (('resolve', 'X5d'), ('ensure', 'X6d'), ('remove', 'X7d')):
-        vc.used(f'dicts.{n}', f'{c} (inlined)')
-    return out
+        vc.used(f'dicts.{n}', c)
+    return {'dicts.resolve': resolve_, 'dicts.ensure': ensure_, 'dicts.remove': remove_}
 
 
 def wf_path(vc, doc, path, what):
@@ -1012,8 +1090,6 @@ def draw_record(vc, verbose_nones=True):
 
 def draw_key(vc):
     """A handler id: an arbitrary string (dots and slashes included), or -- second case -- a concrete dotted id."""
-    import os
-    if os.environ.get('W2_KEY'): return 'fn/spec.x'
     return vc.str('key') if vc.nondet(2, 'key: arbitrary | concrete dotted') == 0 else 'fn/spec.x'
 
 
@@ -1027,79 +1103,65 @@ def copy_of(x):
     return x.snapshot() if isinstance(x, SJson) else copy.deepcopy(x)
 
 
-@harness('E6', targets=[f'{PROGRESS}.StatusProgressStorage.fetch', f'{PROGRESS}.StatusProgressStorage.store',
-                        f'{PROGRESS}.StatusProgressStorage.purge', f'{PROGRESS}.StatusProgressStorage.touch',
-                        f'{PROGRESS}.StatusProgressStorage.clear', f'{PROGRESS}.StatusProgressStorage.__init__',
-                        f'{PROGRESS}.NoWriteStatusProgressStorage.store', f'{PROGRESS}.NoWriteStatusProgressStorage.touch'],
-         props=['C16', 'C04', 'C02'],
-         clauses=['configured_paths', 'fetch_own_record', 'fetch_no_data', 'fetch_corrupted_container_is_no_data', 'store_exact',
-                  'store_then_fetch', 'purge_exact', 'purge_complete', 'touch_exact', 'clear_exact', 'body_untouched', 'nowrite_writes_nothing'],
-         canaries=['canary.fetch_always_none', 'canary.purge_never_writes', 'canary.touch_always_writes', 'canary.clear_is_identity'],
-         trusted=['copy.deepcopy of a JSON document: an equal, unshared value (ProgressStorage.clear, reached through super())',
-                  'StorageStanzaCleaner.remove_empty_stanzas: inlined real code (its contract: E2.stanzas_exact)',
-                  'bodies.Body: a read-only mapping view of the raw object (MappingView.__getitem__ == dicts.resolve on the source)'],
-         assumes=['E6: bodies are ARBITRARY JSON objects (any shape: corrupted status stanzas included); patches / essences are arbitrary JSON '
-                  'objects whose present parents on the storage\'s own path are mappings; handler ids are arbitrary strings; three '
-                  'configurations (default; name+custom fields; one-level tuple fields)'])
-def E6(vc):
-    """
-    progress.StatusProgressStorage, method by method, for EVERY body / patch / handler id / record (dicts.* inlined: X5d-X7d):
-      configured_paths   field / touch_field are the configured dotted paths with {name} filled in (defaults: status.kopf.progress / .dummy);
-      fetch_own_record   the value at <field>.<id> of the body when every step is a mapping holding the next name (None for null);
-      fetch_no_data      None when the record, the container or any parent is missing, or a parent ABOVE the container is not a mapping;
-      fetch_corrupted_container_is_no_data   None as well when the container itself (status.kopf.progress) is present but not a mapping --
-                         "corrupted data [...] as if there is no data at all" (docstring of dicts.resolve, which names this very field)
-                         [known finding F-C16-4: AttributeError instead];
-      store_exact        patch' == the patch with the record at <field>.<id> (the id as ONE path step, dots and all), missing parents
-                         created, nothing else changed;   store_then_fetch: fetch of an object carrying patch' returns that record;
-      purge_exact        body has the record: patch' == patch with <field>.<id> = null;  body has not, patch has: patch' == patch minus that
-                         entry and the parents it emptied;  neither: unchanged;
-      purge_complete     hence after the merge-patch nothing is left at <field>.<id> (the record is null-ed or not mentioned);
-      touch_exact        patch' == patch with touch_field = value iff the body's value there (None if absent) differs from value; else unchanged;
-      clear_exact        the result equals the essence minus <field> (+ parents emptied by that), then minus empty metadata.annotations /
-                         labels / metadata / status; the given essence is not modified;
-      body_untouched     no method modifies the body;   nowrite_writes_nothing: NoWriteStatusProgressStorage.store/touch leave the patch alone.
-    """
+def stanzas_by_contract(vc):
+    """StorageStanzaCleaner.remove_empty_stanzas by contract (E2.stanzas_exact): in place; the real one in the concrete re-run."""
+    from kopf._cogs.configs import conventions
+    vc.used('StorageStanzaCleaner.remove_empty_stanzas', 'E2')
+
+    def remove_empty_stanzas(essence):
+        if isinstance(essence, SJson):
+            essence._write(z3.simplify(spec_stanzas(essence.term)))
+        else:
+            conventions.StorageStanzaCleaner.remove_empty_stanzas(essence)
+    return remove_empty_stanzas
+
+
+def assume_metadata_mapping(vc, essence):
+    if vc.concrete:
+        if not isinstance(essence.get('metadata', {}), dict):
+            vc.assume(False, 'metadata is a mapping')
+    else:
+        md = sel(essence.term, 'metadata')
+        vc.assume(z3.Or(J.is_JAbsent(md), J.is_JObj(md)), 'metadata, if present, is a mapping (essences are built from Kubernetes bodies)')
+
+
+E6_CONFIGS = [({}, ('status', 'kopf', 'progress'), ('status', 'kopf', 'dummy')),
+              (dict(name='op2', field='status.{name}.handlers', touch_field='status.{name}.touched'),
+               ('status', 'op2', 'handlers'), ('status', 'op2', 'touched')),
+              (dict(field=('progress',), touch_field=['dummy']), ('progress',), ('dummy',))]
+
+
+def _e6(vc, methods, configs=(0, 1, 2)):
+    from pyvc.loader import Shadow
     from kopf._cogs.configs import progress
     from kopf._cogs.structs import bodies
-    cfg = vc.nondet(3, 'configuration')
-    import os
-    if os.environ.get('W2_CFG') and cfg != int(os.environ['W2_CFG']): vc.assume(False, 'debug')
-    st = [lambda: progress.StatusProgressStorage(),
-          lambda: progress.StatusProgressStorage(name='op2', field='status.{name}.handlers', touch_field='status.{name}.touched'),
-          lambda: progress.StatusProgressStorage(field=('progress',), touch_field=['dummy'])][cfg]()
-    field = [('status', 'kopf', 'progress'), ('status', 'op2', 'handlers'), ('progress',)][cfg]
-    touch_field = [('status', 'kopf', 'dummy'), ('status', 'op2', 'touched'), ('dummy',)][cfg]
-    method = ['__init__', 'fetch', 'store', 'purge', 'touch', 'clear', 'nowrite'][vc.nondet(7, 'method')]
-    import os
-    if os.environ.get('W2_METHOD') and method != os.environ['W2_METHOD']: vc.assume(False, 'debug')
-    stubs = inlined_dicts(vc)
+    cfg = configs[vc.nondet(len(configs), 'configuration')]
+    kw, field, touch_field = E6_CONFIGS[cfg]
+    st = progress.StatusProgressStorage(**kw)
+    method = methods[vc.nondet(len(methods), 'method')]
+    stubs = contract_dicts(vc)
     if method == '__init__':
         me = Opaque('self')
-        kw = [{}, dict(name='op2', field='status.{name}.handlers', touch_field='status.{name}.touched'),
-              dict(field=('progress',), touch_field=['dummy'])][cfg]
         vc.load(PROGRESS, 'StatusProgressStorage.__init__', stubs={'super': super_stub(__init__=lambda: None)}).fn(me, **kw)
         vc.ensure('configured_paths', me._field == field and me._touch_field == touch_field and type(me._field) is tuple)
         vc.ensure('configured_paths', st.field == field and st.touch_field == touch_field)
         return ('init', cfg)
-    key = draw_key(vc)
+    # fetch looks the id up in a native `{}` when there is no container: concrete ids there (a dotted one and a plain one)
+    key = ['fn/spec.x', 'k'][vc.nondet(2, 'key')] if method == 'fetch' else draw_key(vc)
     kf = field + (key,)
     allkeys = kf + touch_field
     if method == 'clear':
         essence = draw_obj(vc, 'essence', allkeys + ('metadata', 'annotations', 'labels'))
         wf_path(vc, essence, field, 'no non-mapping on the storage path of the essence')
-        if vc.concrete:
-            if not isinstance(essence.get('metadata', {}), dict):
-                vc.assume(False, 'metadata is a mapping')
-        else:
-            vc.assume(z3.Or(J.is_JAbsent(sel(essence.term, 'metadata')), J.is_JObj(sel(essence.term, 'metadata'))), 'metadata is a mapping')
+        assume_metadata_mapping(vc, essence)
         before = jt(essence)
         ld = vc.load(PROGRESS, 'StatusProgressStorage.clear',
                      stubs=dict(stubs, super=super_stub(clear=lambda essence: copy_of(essence))))
-        res = ld.fn(st, essence=essence)
+        res = ld.fn(Shadow(st, {'remove_empty_stanzas': stanzas_by_contract(vc)}), essence=essence)
         _, removed = spec_remove(before, field)
         vc.ensure('clear_exact', holds(vc, jt(res) == spec_stanzas(removed)))
         vc.ensure('clear_exact', holds(vc, jt(essence) == before))
+        vc.ensure('clear_exact', holds(vc, J.is_JAbsent(value_or_absent(jt(res), field))))
         vc.canary('canary.clear_is_identity', holds(vc, jt(res) == before))
         return ('clear', cfg)
     raw = draw_obj(vc, 'body', allkeys)
@@ -1123,21 +1185,19 @@ def E6(vc):
     wf_path(vc, patch, touch_field if method == 'touch' else kf, 'present parents on the own path of the patch are mappings')
     patch0 = jt(patch)
     if method == 'nowrite':
-        record = draw_record(vc)
+        record = draw_doc(vc, 'record')
         vc.load(PROGRESS, 'NoWriteStatusProgressStorage.store', stubs=stubs).fn(st, key=key, record=record, body=body, patch=patch)
         vc.load(PROGRESS, 'NoWriteStatusProgressStorage.touch', stubs=stubs).fn(st, body=body, patch=patch, value='now')
         vc.ensure('nowrite_writes_nothing', holds(vc, z3.And(jt(patch) == patch0, jt(raw) == body0)))
         vc.ensure('nowrite_writes_nothing', issubclass(progress.NoWriteStatusProgressStorage, progress.StatusProgressStorage))
         return ('nowrite', cfg)
     if method == 'store':
-        record = draw_record(vc)
+        record = draw_doc(vc, 'record')         # the record is passed through as it is: ANY JSON value
         rec_t = jt(record)
         vc.load(PROGRESS, 'StatusProgressStorage.store', stubs=stubs).fn(st, key=key, record=record, body=body, patch=patch)
         _, expected = spec_ensure(patch0, kf, rec_t)
         vc.ensure('store_exact', holds(vc, jt(patch) == expected))
-        # what an object carrying this part of the patch gives back
-        res = vc.load(PROGRESS, 'StatusProgressStorage.fetch', stubs=stubs).fn(st, key=key, body=bodies.Body(copy_of(patch)))
-        vc.ensure('store_then_fetch', res is not None and holds(vc, jt(res) == rec_t))
+        vc.canary('canary.store_keeps_patch', holds(vc, jt(patch) == patch0))
     elif method == 'purge':
         vc.load(PROGRESS, 'StatusProgressStorage.purge', stubs=stubs).fn(st, key=key, body=body, patch=patch)
         in_body = z3.Not(J.is_JAbsent(value_or_absent(body0, kf)))
@@ -1157,3 +1217,999 @@ def E6(vc):
         vc.canary('canary.touch_always_writes', holds(vc, jt(patch) == written))
     vc.ensure('body_untouched', holds(vc, jt(raw) == body0))
     return (method, cfg)
+
+
+_E6_TRUSTED = ['copy.deepcopy of a JSON document: an equal, unshared value (ProgressStorage.clear, reached through super())',
+               'bodies.Body: a read-only mapping view of the raw object (MappingView.__getitem__ == dicts.resolve on the source)']
+_E6_ASSUMES = ['E6/E6p: bodies are ARBITRARY JSON objects (any shape: corrupted status stanzas included); patches / essences are arbitrary '
+               'JSON objects whose present parents on the storage\'s own path are mappings (only dicts.ensure / the framework creates '
+               'them); handler ids are arbitrary strings (fetch: two concrete ids); configurations: default, name + custom dotted '
+               'fields, one-level tuple fields']
+
+
+@harness('E6', targets=[f'{PROGRESS}.StatusProgressStorage.__init__', f'{PROGRESS}.StatusProgressStorage.fetch',
+                        f'{PROGRESS}.StatusProgressStorage.store', f'{PROGRESS}.StatusProgressStorage.touch',
+                        f'{PROGRESS}.NoWriteStatusProgressStorage.store', f'{PROGRESS}.NoWriteStatusProgressStorage.touch'],
+         props=['C16', 'C04', 'C02'],
+         clauses=['configured_paths', 'fetch_own_record', 'fetch_no_data', 'fetch_corrupted_container_is_no_data', 'store_exact',
+                  'touch_exact', 'body_untouched', 'nowrite_writes_nothing'],
+         canaries=['canary.fetch_always_none', 'canary.store_keeps_patch', 'canary.touch_always_writes'],
+         trusted=_E6_TRUSTED, assumes=_E6_ASSUMES)
+def E6(vc):
+    """
+    progress.StatusProgressStorage, method by method, for EVERY body / patch / handler id / record (dicts.* by contract: X5d-X7d):
+      configured_paths   field / touch_field are the configured dotted paths with {name} filled in (defaults: status.kopf.progress / .dummy);
+      fetch_own_record   the value at <field>.<id> of the body when every step is a mapping holding the next name (None for null);
+      fetch_no_data      None when the record, the container or any parent is missing, or a parent ABOVE the container is not a mapping;
+      fetch_corrupted_container_is_no_data   None as well when the container itself (status.kopf.progress) is present but not a mapping --
+                         "corrupted data [...] as if there is no data at all" (docstring of dicts.resolve, which names this very field)
+                         [known finding F-C16-4: AttributeError instead];
+      store_exact        patch' == the patch with the record at <field>.<id> (the id as ONE path step, dots and all), missing parents
+                         created, nothing else changed (the read-back is X6d.sets_value + fetch_own_record; end to end: E5);
+      touch_exact        patch' == patch with touch_field = value iff the body's value there (None if absent) differs from value; else unchanged;
+      body_untouched     no method modifies the body;   nowrite_writes_nothing: NoWriteStatusProgressStorage.store/touch leave the patch alone.
+    """
+    return _e6(vc, ['__init__', 'fetch', 'store', 'touch', 'nowrite'])
+
+
+@harness('E6p', targets=[f'{PROGRESS}.StatusProgressStorage.purge', f'{PROGRESS}.StatusProgressStorage.clear'],
+         props=['C16', 'C04', 'C02'],
+         clauses=['purge_exact', 'purge_complete', 'clear_exact', 'body_untouched'],
+         canaries=['canary.purge_never_writes', 'canary.clear_is_identity'],
+         trusted=_E6_TRUSTED, assumes=_E6_ASSUMES)
+def E6p(vc):
+    """
+    progress.StatusProgressStorage.purge / clear (dicts.* by contract X5d-X7d, remove_empty_stanzas by contract E2), default and
+    one-level configuration:
+      purge_exact        body has the record: patch' == patch with <field>.<id> = null;  body has not, patch has: patch' == patch minus that
+                         entry and the parents it emptied (a store pending in the same patch is cancelled);  neither: unchanged;
+      purge_complete     hence after the merge-patch nothing is left at <field>.<id> (the record is null-ed or not mentioned);
+      clear_exact        the result equals the essence minus <field> (+ the parents emptied by that), then minus empty metadata.annotations /
+                         labels / metadata / status: nothing is left at <field>; the given essence is not modified;
+      body_untouched     purge does not modify the body.
+    """
+    return _e6(vc, ['purge', 'clear'], configs=(0, 2))
+
+
+# =========================================================================== E7: AnnotationsProgressStorage on symbolic bodies/patches
+ANN = ('metadata', 'annotations')
+
+
+class KeyMaker:
+    """StorageKeyFormingConvention.make_keys(key, body=) by contract (E4/E4b.make_keys): one or two DISTINCT annotation names (the v2
+    name first, the v1 name if it is enabled and differs), a function of (key, body) only; here: arbitrary strings, drawn up front
+    (`names`) and handed out for the first (key, body) asked about; further distinct arguments get further fresh names."""
+    def __init__(self, vc, tag='full_key'):
+        self.vc, self.calls, self.made, self.tag = vc, [], {}, tag
+        self.names = self._draw()
+
+    def _draw(self):
+        n = 1 + self.vc.nondet(2, 'make_keys: v2 only | v2 and v1')
+        ks = [self.vc.str(f'{self.tag}{len(self.made)}.{i}') for i in range(n)]
+        if n == 2:
+            self.vc.assume(Not(Eq(ks[0], ks[1])), 'make_keys returns no duplicates (E4b.make_keys)')
+        return ks
+
+    def __call__(self, key, *, body=None):
+        self.calls.append((key, body))
+        memo = (id(key) if isinstance(key, SV) else key, id(body))
+        if memo not in self.made:
+            self.made[memo] = self.names if not self.made else self._draw()
+        return iter(list(self.made[memo]))        # any iterable
+
+
+class Marker:
+    """StorageKeyMarkingConvention._store_marker by contract (E2.marker_iff / marker_write): recorded; its own write to the patch
+    (the `<prefix>/kopf-managed` annotation) is outside the clauses here."""
+    def __init__(self, vc):
+        self.vc, self.calls = vc, []
+
+    def __call__(self, *, prefix, patch, body):
+        self.calls.append((prefix, patch, body))
+        self.vc.emit('_store_marker', prefix, patch, body)
+
+
+class JsonStub:
+    """json.dumps / json.loads by (trusted) contract: dumps(x, separators=) is some string; loads(s) is some JSON value, possibly None
+    (the text `null`) or an empty mapping; loads(dumps(x)) == x is the bounded round trip E5 / G4."""
+    def __init__(self, vc):
+        self.vc, self.dumped, self.loaded = vc, [], []
+
+    def dumps(self, obj, **kw):
+        s = self.vc.str(f'json.dumps#{len(self.dumped)}')
+        self.dumped.append((obj, _snapshot(obj), kw, s))
+        return s
+
+    def loads(self, s):
+        kind = self.vc.nondet(3, 'json.loads: a record | an empty mapping | null')
+        obj = [Opaque(f'decoded#{len(self.loaded)}'), {}, None][kind]
+        self.loaded.append((jt(s), obj))
+        return obj
+
+
+def assume_annotations_shape(vc, raw, what, null_values=False, keys=()):
+    """Kubernetes guarantee on bodies ("the structure of annotations is ensured by K8s", dicts.resolve): metadata and
+    metadata.annotations, if present, are mappings, and annotation values are strings.  For patches: the same, values may be null."""
+    if vc.concrete:
+        md = raw.get('metadata', {})
+        ann = md.get('annotations', {}) if isinstance(md, dict) else None
+        ok = isinstance(md, dict) and isinstance(ann, dict) and all(
+            isinstance(ann.get(k, ''), str) or (null_values and ann.get(k) is None) for k in keys)
+        if not ok:
+            vc.assume(False, what)
+        return
+    md = sel(raw.term, 'metadata')
+    ann = sel(md, 'annotations')
+    vc.assume(z3.Or(J.is_JAbsent(md), J.is_JObj(md)), f'{what}: metadata is a mapping')
+    vc.assume(z3.Implies(J.is_JObj(md), z3.Or(J.is_JAbsent(ann), J.is_JObj(ann))), f'{what}: annotations is a mapping')
+    for k in keys:
+        v = sel(ann, k)
+        vc.assume(z3.Implies(z3.And(J.is_JObj(md), J.is_JObj(ann)),
+                             z3.Or(J.is_JAbsent(v), J.is_JStr(v), J.is_JNull(v) if null_values else False)), f'{what}: annotation values are strings')
+
+
+def decided(vc, formula):
+    """the truth value of a fact the code under test has already decided on this path (forks only if it has not)"""
+    v = holds(vc, formula)
+    return bool(v)
+
+
+def _e7(vc, methods):
+    from kopf._cogs.structs import bodies
+    method = methods[vc.nondet(len(methods), 'method')]
+    if method == '__init__':
+        sup = []
+        me = Opaque('self')
+        v1, verbose = vc.bool('v1'), vc.bool('verbose')
+        vc.load(PROGRESS, 'AnnotationsProgressStorage.__init__', stubs={'super': super_stub(__init__=lambda **kw: sup.append(kw))}).fn(
+            me, prefix='my-op.example.com', verbose=verbose, touch_key='my-touch', v1=v1)
+        vc.ensure('configured', len(sup) == 1 and sorted(sup[0]) == ['prefix', 'v1'] and sup[0]['prefix'] == 'my-op.example.com'
+                  and sup[0]['v1'] is v1 and me.verbose is verbose and me.touch_key == 'my-touch')
+        return ('init',)
+    make_keys, marker, js = KeyMaker(vc), Marker(vc), JsonStub(vc)
+    verbose = vc.bool('verbose')
+    prefix = vc.str('prefix')
+    me = Opaque('storage', prefix=prefix, verbose=verbose, touch_key='touch-dummy', make_keys=make_keys, _store_marker=marker)
+    stubs = dict(contract_dicts(vc), **{'json.dumps': js.dumps, 'json.loads': js.loads})
+    vc.used('self.make_keys', 'E4b'); vc.used('self._store_marker', 'E2')
+    key = vc.str('key')                  # the handler id only goes to make_keys here
+    names = tuple(make_keys.names)
+    raw = draw_obj(vc, 'body', ANN + names)
+    body = bodies.Body(raw)
+    body0 = jt(raw)
+    if method == 'fetch':
+        assume_annotations_shape(vc, raw, 'body', keys=names)
+        res = vc.load(PROGRESS, 'AnnotationsProgressStorage.fetch', stubs=stubs).fn(me, key=key, body=body)
+        vc.ensure('keys_from_make_keys', len(make_keys.calls) == 1 and make_keys.calls[0][0] is key and make_keys.calls[0][1] is body)
+        keys = list(make_keys.made.values())[0]
+        # the specification, step by step over the keys in order
+        expected, n_loaded = None, 0
+        for k in keys:
+            v = value_or_absent(body0, ANN + (k,))
+            if decided(vc, z3.Or(J.is_JAbsent(v), J.is_JNull(v))):
+                continue
+            vc.ensure('fetch_decodes_own_annotation', n_loaded < len(js.loaded) and holds(vc, js.loaded[n_loaded][0] == v))
+            if n_loaded >= len(js.loaded):
+                break
+            decoded = js.loaded[n_loaded][1]
+            n_loaded += 1
+            if decoded is not None:
+                expected = (decoded,)
+                break
+        vc.ensure('fetch_decodes_own_annotation', n_loaded == len(js.loaded))
+        vc.ensure('fetch_first_present', res is None if expected is None else res is expected[0])
+        vc.ensure('body_untouched', holds(vc, jt(raw) == body0))
+        vc.canary('canary.fetch_always_none', res is None)
+        vc.canary('canary.fetch_first_key_only', n_loaded <= 1 and (expected is None or len(js.loaded) == 1 and len(keys) == 1))
+        return ('fetch', len(keys), n_loaded, res is None)
+    patch = draw_obj(vc, 'patch', ANN + names)
+    patch0 = jt(patch)
+    if method == 'store':
+        record = draw_record(vc)
+        n0 = len(vc.trace)
+        # precondition: the present parents of metadata.annotations in the patch are mappings
+        wf_path(vc, patch, ANN + ('any',), 'present parents on the own path of the patch are mappings')
+        vc.load(PROGRESS, 'AnnotationsProgressStorage.store', stubs=stubs).fn(me, key=key, record=record, body=body, patch=patch)
+        vc.ensure('keys_from_make_keys', len(make_keys.calls) == 1 and make_keys.calls[0][0] is key and make_keys.calls[0][1] is body)
+        keys = list(make_keys.made.values())[0]
+        vc.ensure('store_encodes_record', len(js.dumped) == 1)
+        obj, snap, kw, enc = js.dumped[0]
+        want = {k: v for k, v in record.items() if v is not None}
+        vc.ensure('store_encodes_record', isinstance(obj, dict) and kw == {'separators': (',', ':')})
+        vc.ensure('store_encodes_record', If(verbose, list(snap) == list(record), list(snap) == list(want)))
+        vc.ensure('store_encodes_record', And(True, *[_jeq(vc, snap[k], record[k]) for k in snap]))
+        expected = patch0
+        for k in keys:
+            _, expected = spec_ensure(expected, ANN + (k,), jt(enc))
+        vc.ensure('store_every_key', holds(vc, jt(patch) == expected))
+        for k in keys:
+            vc.ensure('store_every_key', holds(vc, value_or_absent(jt(patch), ANN + (k,)) == jt(enc)))
+        vc.ensure('store_marker', len(marker.calls) == 1 and marker.calls[0][0] is prefix and marker.calls[0][1] is patch
+                  and marker.calls[0][2] is body)
+        vc.ensure('body_untouched', holds(vc, jt(raw) == body0))
+        vc.canary('canary.store_one_key', len(keys) == 1)
+        vc.canary('canary.store_drops_nones', list(snap) == list(want))
+        return ('store', len(keys), list(snap))
+    if method == 'purge':
+        assume_annotations_shape(vc, raw, 'body', keys=names)
+        assume_annotations_shape(vc, patch, 'patch', null_values=True, keys=names)
+        vc.load(PROGRESS, 'AnnotationsProgressStorage.purge', stubs=stubs).fn(me, key=key, body=body, patch=patch)
+        vc.ensure('keys_from_make_keys', len(make_keys.calls) == 1 and make_keys.calls[0][0] is key and make_keys.calls[0][1] is body)
+        keys = list(make_keys.made.values())[0]
+        expected = patch0
+        for k in keys:
+            kf = ANN + (k,)
+            in_body = z3.Not(J.is_JAbsent(value_or_absent(body0, kf)))
+            in_patch = z3.Not(J.is_JAbsent(value_or_absent(expected, kf)))
+            _, nulled = spec_ensure(expected, kf, NULL)
+            _, removed = spec_remove(expected, kf)
+            expected = z3.If(in_body, nulled, z3.If(in_patch, removed, expected))
+        vc.ensure('purge_exact', holds(vc, jt(patch) == expected))
+        for k in keys:
+            vc.ensure('purge_complete', holds(vc, gone_after_merge(body0, jt(patch), ANN + (k,))))
+        vc.ensure('purge_no_marker', len(marker.calls) == 0 and not js.dumped and not js.loaded)
+        vc.ensure('body_untouched', holds(vc, jt(raw) == body0))
+        vc.canary('canary.purge_never_writes', holds(vc, jt(patch) == patch0))
+        return ('purge', len(keys))
+    # ---- touch
+    assume_annotations_shape(vc, raw, 'body', keys=names)
+    assume_annotations_shape(vc, patch, 'patch', null_values=True, keys=names)
+    value = vc.opt('value', vc.str)
+    vc.load(PROGRESS, 'AnnotationsProgressStorage.touch', stubs=stubs).fn(me, body=body, patch=patch, value=value)
+    vc.ensure('keys_from_make_keys', len(make_keys.calls) == 1 and make_keys.calls[0][0] == 'touch-dummy' and make_keys.calls[0][1] is body)
+    keys = list(make_keys.made.values())[0]
+    expected, writes = patch0, []
+    for k in keys:
+        at = value_or_absent(body0, ANN + (k,))
+        differs = z3.If(J.is_JAbsent(at), NULL, at) != jt(value)
+        _, written = spec_ensure(expected, ANN + (k,), jt(value))
+        expected = z3.If(differs, written, expected)
+        writes.append(differs)
+    vc.ensure('touch_exact', holds(vc, jt(patch) == expected))
+    vc.ensure('touch_marker_iff_written', Iff(len(marker.calls) >= 1, holds(vc, z3.Or(*writes))))
+    vc.ensure('touch_marker_iff_written', all(c[0] is prefix and c[1] is patch and c[2] is body for c in marker.calls))
+    vc.ensure('body_untouched', holds(vc, jt(raw) == body0))
+    vc.canary('canary.touch_always_writes', len(marker.calls) >= 1)
+    return ('touch', len(keys), len(marker.calls))
+
+
+_E7_TRUSTED = ['json.dumps / json.loads: some string / some JSON value (None, {} included); their round trip is bounded (E5, G4)',
+               'make_keys by contract E4/E4b (1 or 2 distinct names, a function of key and body); _store_marker by contract E2']
+_E7_ASSUMES = ['E7/E7p: bodies are arbitrary JSON objects whose metadata / metadata.annotations, if present, are mappings with string values '
+               '(Kubernetes guarantee); patches are arbitrary JSON objects whose present parents of metadata.annotations are mappings; '
+               'handler ids and annotation names are arbitrary strings; records: all nine fields, Optional ones also None; verbose symbolic']
+
+
+@harness('E7', targets=[f'{PROGRESS}.AnnotationsProgressStorage.__init__', f'{PROGRESS}.AnnotationsProgressStorage.fetch',
+                        f'{PROGRESS}.AnnotationsProgressStorage.store'],
+         props=['C16', 'C04', 'C02'],
+         clauses=['configured', 'keys_from_make_keys', 'fetch_decodes_own_annotation', 'fetch_first_present', 'store_encodes_record',
+                  'store_every_key', 'store_marker', 'body_untouched'],
+         canaries=['canary.fetch_always_none', 'canary.fetch_first_key_only', 'canary.store_one_key', 'canary.store_drops_nones'],
+         trusted=_E7_TRUSTED, assumes=_E7_ASSUMES)
+def E7(vc):
+    """
+    progress.AnnotationsProgressStorage.fetch / store (+ constructor), dicts.* by contract (X5d-X7d):
+      configured           the constructor hands prefix and v1 to the key-forming convention and keeps verbose / touch_key;
+      keys_from_make_keys  the annotation names are those of ONE call make_keys(<handler id>, body=<this body>);
+      fetch_decodes_own_annotation   json.loads is applied to exactly the body's values of those names, in their order, skipping absent
+                           ones and stopping at the first that decodes to something;
+      fetch_first_present  the result is that first decoded value -- an EMPTY mapping counts as a record -- and None if there is none
+                           (either key version alone is enough to read a record back: C16);
+      store_encodes_record ONE json.dumps (compact separators) of the record without its None-valued fields (all fields when verbose);
+      store_every_key      patch' == patch with that string under metadata.annotations[<name>] for EVERY name of make_keys, missing
+                           parents created, nothing else changed;
+      store_marker         the branding marker is stored (ONE _store_marker(prefix=self.prefix, patch, body) call: E2) -- other
+                           Kopf-based operators recognise the prefix by it (C04: no ping-pong);
+      body_untouched       the body is not modified.
+    """
+    return _e7(vc, ['__init__', 'fetch', 'store'])
+
+
+@harness('E7p', targets=[f'{PROGRESS}.AnnotationsProgressStorage.purge', f'{PROGRESS}.AnnotationsProgressStorage.touch'],
+         props=['C16', 'C04', 'C02'],
+         clauses=['keys_from_make_keys', 'purge_exact', 'purge_complete', 'purge_no_marker', 'touch_exact', 'touch_marker_iff_written',
+                  'body_untouched'],
+         canaries=['canary.purge_never_writes', 'canary.touch_always_writes'],
+         trusted=_E7_TRUSTED, assumes=_E7_ASSUMES)
+def E7p(vc):
+    """
+    progress.AnnotationsProgressStorage.purge / touch, dicts.* by contract (X5d-X7d), for one or two names from make_keys:
+      purge_exact      name by name: the body has the annotation: patch' gets <name> = null;  else if the patch has it: the entry (and the
+                       parents it emptied) is removed from the patch;  else unchanged;  nothing else changes;
+      purge_complete   hence, after the merge-patch, NO name of make_keys is left on the object (C16: purged completely; C02: the
+                       closed cycle leaves no progress behind);   purge_no_marker: purging stores no marker, encodes/decodes nothing;
+      touch_exact      name by name (of make_keys(touch_key)): patch' gets <name> = value iff the body's value (None if absent) differs;
+      touch_marker_iff_written   the branding marker is stored iff something was written;
+      body_untouched   the body is not modified.
+    """
+    return _e7(vc, ['purge', 'touch'])
+
+
+# =========================================================================== E8: the Multi* / Smart* fan-out storages
+class SubStorage:
+    """One member of a Multi* storage: progress.ProgressStorage / diffbase.DiffBaseStorage BY CONTRACT; every call is recorded."""
+    def __init__(self, vc, name, fetched=None):
+        self.vc, self.name, self.fetched = vc, name, fetched
+
+    def __repr__(self): return f'<{self.name}>'
+    def fetch(self, **kw): self.vc.emit('fetch', self, kw); return self.fetched
+    def store(self, **kw): self.vc.emit('store', self, kw)
+    def purge(self, **kw): self.vc.emit('purge', self, kw)
+    def touch(self, **kw): self.vc.emit('touch', self, kw)
+    def flush(self): self.vc.emit('flush', self)
+
+    def clear(self, *, essence):
+        out = Opaque(f'{self.name}.clear()')
+        self.vc.emit('clear', self, essence, out)
+        return out
+
+    def build(self, *, body, extra_fields=None):
+        out = {'built-by': self.name}
+        self.vc.emit('build', self, body, extra_fields, out)
+        return out
+
+
+@harness('E8', targets=[f'{PROGRESS}.MultiProgressStorage.fetch', f'{PROGRESS}.MultiProgressStorage.store',
+                        f'{PROGRESS}.MultiProgressStorage.purge', f'{PROGRESS}.MultiProgressStorage.touch',
+                        f'{PROGRESS}.MultiProgressStorage.clear', f'{PROGRESS}.MultiProgressStorage.__init__',
+                        f'{PROGRESS}.SmartProgressStorage.__init__',
+                        f'{DIFFBASE}.MultiDiffBaseStorage.fetch', f'{DIFFBASE}.MultiDiffBaseStorage.store',
+                        f'{DIFFBASE}.MultiDiffBaseStorage.build', f'{DIFFBASE}.MultiDiffBaseStorage.__init__'],
+         props=['C16', 'C04', 'C02'],
+         clauses=['fetch_first_found', 'fetch_stops_at_first', 'write_fans_out_to_all', 'clear_threads_through_all', 'build_threads_through_all',
+                  'members_kept', 'smart_is_annotations_then_nowrite_status', 'arguments_passed'],
+         canaries=['canary.fetch_asks_everyone', 'canary.always_found'],
+         trusted=['the member storages by contract (E6..E7p, E9 for the provided classes; user-made ones: ASSUMED)',
+                  'DiffBaseStorage.build (the base essence) by contract E1/E2p, reached through super()'],
+         assumes=['E8: 0..3 member storages (an empty collection is allowed), each fetch returning None / an EMPTY mapping / a record'])
+def E8(vc):
+    """
+    MultiProgressStorage / MultiDiffBaseStorage over 0..3 arbitrary member storages, SmartProgressStorage's composition:
+      fetch_first_found      fetch returns the first member's result that is not None, in member order -- an empty mapping is a result
+                             (a stored empty essence / record must not fall through to an older copy) -- and None if there is none;
+      fetch_stops_at_first   members after the first hit are not asked; members before it are asked once each;
+      write_fans_out_to_all  store / purge / touch call the same method of EVERY member exactly once, with the same arguments
+                             (so that a record is purged from every place it was stored in: C16);
+      clear_threads_through_all   clear(essence) == mN.clear(...m2.clear(m1.clear(essence))) (each member once, chained): every member cleans its own traces (C04);
+      build_threads_through_all   MultiDiffBaseStorage.build == the base essence, then for each member m: m.build(body=Body(<previous essence>),
+                             extra_fields=<the same>), the last result returned;
+      members_kept           the constructors keep the given collection as `.storages`;
+      smart_is_annotations_then_nowrite_status   SmartProgressStorage(...) == Multi[AnnotationsProgressStorage(v1, prefix, verbose,
+                             touch_key), NoWriteStatusProgressStorage(name, field, touch_field)] in this order (annotations are read first,
+                             status is never written);
+      arguments_passed       key / record / body / patch / value / essence reach the members unchanged.
+    """
+    from kopf._cogs.structs import bodies
+    which = ['progress', 'diffbase', 'constructors'][vc.nondet(3, 'class')]
+    if which == 'constructors':
+        made, sup = [], []
+
+        class Ann:
+            def __init__(self, **kw): made.append(('annotations', kw, self))
+
+        class NoWrite:
+            def __init__(self, **kw): made.append(('status', kw, self))
+        me = Opaque('self')
+        v1, verbose = vc.bool('v1'), vc.bool('verbose')
+        vc.load(PROGRESS, 'SmartProgressStorage.__init__', stubs={
+            'super': super_stub(__init__=lambda storages: sup.append(storages)),
+            'AnnotationsProgressStorage': Ann, 'NoWriteStatusProgressStorage': NoWrite}).fn(
+                me, name='op', field='status.{name}.p', touch_key='tk', touch_field='status.{name}.d', prefix='pfx.example.com', v1=v1, verbose=verbose)
+        vc.ensure('smart_is_annotations_then_nowrite_status', len(sup) == 1 and [m[0] for m in made] == ['annotations', 'status']
+                  and len(list(sup[0])) == 2 and list(sup[0])[0] is made[0][2] and list(sup[0])[1] is made[1][2])
+        vc.ensure('smart_is_annotations_then_nowrite_status',
+                  made[0][1] == dict(v1=v1, prefix='pfx.example.com', verbose=verbose, touch_key='tk') and made[0][1]['v1'] is v1
+                  and made[0][1]['verbose'] is verbose and made[1][1] == dict(name='op', field='status.{name}.p', touch_field='status.{name}.d'))
+        members = (Opaque('m1'), Opaque('m2'))
+        for mod, cls in ((PROGRESS, 'MultiProgressStorage'), (DIFFBASE, 'MultiDiffBaseStorage')):
+            me = Opaque('self')
+            vc.load(mod, f'{cls}.__init__', stubs={'super': super_stub(__init__=lambda: None)}).fn(me, members)
+            vc.ensure('members_kept', me.storages is members)
+        return ('constructors',)
+    n = vc.nondet(4, 'members')
+    kinds = [vc.nondet(3, f'member {i} has: nothing | an empty mapping | a record') for i in range(n)]
+    members = [SubStorage(vc, f'm{i}', [None, {}, {'started': 'then'}][k]) for i, k in enumerate(kinds)]
+    shape = vc.nondet(2, 'members as list | tuple')
+    me = Opaque('multi', storages=list(members) if shape == 0 else tuple(members))
+    body, patch, key = Opaque('body'), Opaque('patch'), vc.str('key')
+    mod, cls = (PROGRESS, 'MultiProgressStorage') if which == 'progress' else (DIFFBASE, 'MultiDiffBaseStorage')
+    methods = ['fetch', 'store', 'purge', 'touch', 'clear'] if which == 'progress' else ['fetch', 'store', 'build']
+    method = methods[vc.nondet(len(methods), 'method')]
+    tr = vc.trace
+    if method == 'fetch':
+        kw = dict(key=key, body=body) if which == 'progress' else dict(body=body)
+        res = vc.load(mod, f'{cls}.fetch').fn(me, **kw)
+        hits = [i for i, k in enumerate(kinds) if k != 0]
+        vc.ensure('fetch_first_found', res is members[hits[0]].fetched if hits else res is None)
+        asked = [ev[1] for ev in tr]
+        vc.ensure('fetch_stops_at_first', all(ev[0] == 'fetch' for ev in tr)
+                  and len(asked) == (hits[0] + 1 if hits else n) and all(a is m for a, m in zip(asked, members)))
+        vc.ensure('arguments_passed', all(sorted(ev[2]) == sorted(kw) and all(ev[2][k] is kw[k] for k in kw) for ev in tr))
+        vc.canary('canary.fetch_asks_everyone', len(asked) == n)
+        vc.canary('canary.always_found', res is not None)
+        return ('fetch', which, n, kinds)
+    if method in ('store', 'purge', 'touch'):
+        kw = {('progress', 'store'): dict(key=key, record=Opaque('record'), body=body, patch=patch),
+              ('progress', 'purge'): dict(key=key, body=body, patch=patch),
+              ('progress', 'touch'): dict(body=body, patch=patch, value=vc.opt('value', vc.str)),
+              ('diffbase', 'store'): dict(body=body, patch=patch, essence=Opaque('essence'))}[(which, method)]
+        vc.load(mod, f'{cls}.{method}').fn(me, **kw)
+        vc.ensure('write_fans_out_to_all', [ev[0] for ev in tr] == [method] * n and all(sum(1 for ev in tr if ev[1] is m) == 1 for m in members))
+        vc.ensure('arguments_passed', all(sorted(ev[2]) == sorted(kw) and all(ev[2][k] is kw[k] for k in kw) for ev in tr))
+        return (method, which, n)
+    if method == 'clear':
+        essence = Opaque('essence')
+        res = vc.load(mod, f'{cls}.clear').fn(me, essence=essence)
+        vc.ensure('clear_threads_through_all', [ev[0] for ev in tr] == ['clear'] * n and all(sum(1 for ev in tr if ev[1] is m) == 1 for m in members))
+        prev = essence
+        for ev in tr:
+            vc.ensure('clear_threads_through_all', ev[2] is prev)
+            prev = ev[3]
+        vc.ensure('clear_threads_through_all', res is prev)
+        return ('clear', n)
+    # ---- MultiDiffBaseStorage.build
+    base = {'spec': {'x': 1}}
+    extra = resolve(vc.fin('extra_fields', [None, [], ['status.observed']]))
+    base_calls = []
+
+    def base_build(*, body, extra_fields=None):
+        base_calls.append((body, extra_fields))
+        return base
+    res = vc.load(mod, f'{cls}.build', stubs={'super': super_stub(build=base_build)}).fn(me, body=body, extra_fields=extra)
+    vc.ensure('build_threads_through_all', len(base_calls) == 1 and base_calls[0][0] is body and base_calls[0][1] is extra)
+    vc.ensure('build_threads_through_all', [ev[0] for ev in tr] == ['build'] * n and all(sum(1 for ev in tr if ev[1] is m) == 1 for m in members))
+    prev = base
+    for ev in tr:
+        vc.ensure('build_threads_through_all', isinstance(ev[2], bodies.Body) and ev[2]._src is prev and ev[3] is extra)
+        prev = ev[4]
+    vc.ensure('build_threads_through_all', res is prev)
+    return ('build', n)
+
+
+# =========================================================================== E9: the diff-base storages
+class SymPatch:
+    """patches.Patch over a symbolic document, as far as the storages use it: a mutable mapping, and `.metadata.annotations` as
+    the MutableMappingView it is -- BY CONTRACT (trusted, one line each in dicts.py): view[k] == dicts.resolve(src, path + (k,)),
+    `k in view` <=> that resolves, view[k] = v == dicts.ensure(src, path + (k,), v)."""
+    def __init__(self, raw, stubs, path=()):
+        self._w2_raw, self._stubs, self._w2_path = raw, stubs, tuple(path)
+
+    def _sub(self, *names):
+        return SymPatch(self._w2_raw, self._stubs, self._w2_path + names)
+
+    metadata = property(lambda self: self._sub('metadata'))
+    meta = metadata
+    annotations = property(lambda self: self._sub('annotations'))
+    status = property(lambda self: self._sub('status'))
+
+    def __getitem__(self, k):
+        return self._stubs['dicts.resolve'](self._w2_raw, self._w2_path + (k,))
+
+    def get(self, k, default=None):
+        try:
+            return self[k]
+        except KeyError:
+            return default
+
+    def __contains__(self, k):
+        try:
+            self[k]
+            return True
+        except KeyError:
+            return False
+
+    def __setitem__(self, k, v):
+        self._stubs['dicts.ensure'](self._w2_raw, self._w2_path + (k,), v)
+
+
+@harness('E9', targets=[f'{DIFFBASE}.AnnotationsDiffBaseStorage.__init__', f'{DIFFBASE}.AnnotationsDiffBaseStorage.fetch',
+                        f'{DIFFBASE}.AnnotationsDiffBaseStorage.store', f'{DIFFBASE}.AnnotationsDiffBaseStorage.build',
+                        f'{DIFFBASE}.StatusDiffBaseStorage.__init__', f'{DIFFBASE}.StatusDiffBaseStorage.fetch',
+                        f'{DIFFBASE}.StatusDiffBaseStorage.store', f'{DIFFBASE}.StatusDiffBaseStorage.build'],
+         props=['C16', 'C04', 'C03'],
+         clauses=['configured', 'keys_from_make_keys', 'fetch_decodes_own_annotation', 'fetch_first_present', 'store_every_key', 'store_marker',
+                  'build_removes_own_keys', 'status_fetch', 'status_store_exact', 'status_build_removes_own_field', 'body_untouched'],
+         canaries=['canary.fetch_always_none', 'canary.store_one_key', 'canary.status_fetch_none', 'canary.status_build_identity'],
+         trusted=_E7_TRUSTED + ['DiffBaseStorage.build (the base essence) by contract E1/E2p, reached through super(); '
+                                'remove_annotations by contract E2b, remove_empty_stanzas by contract E2',
+                                'patches.Patch.metadata.annotations / bodies.Body.metadata.annotations: (mutable) mapping views, by contract '
+                                '== dicts.resolve / dicts.ensure on the source with the path prefixed (MappingView, MutableMappingView)'],
+         assumes=_E7_ASSUMES + ['E9: essences to store are arbitrary objects passed to json.dumps; StatusDiffBaseStorage: bodies arbitrary JSON '
+                                'objects, patches / essences with mappings as present parents of the own field; two field configurations'])
+def E9(vc):
+    """
+    diffbase.AnnotationsDiffBaseStorage / StatusDiffBaseStorage, method by method (dicts.* by contract X5d-X7d; json, make_keys,
+    _store_marker, the base build and the stanza helpers by contract):
+      configured           the constructors hand prefix / v1 / ignored_fields on and keep key / the parsed field path;
+      keys_from_make_keys  the annotation names are those of ONE call make_keys(self.key, body=<this body>);
+      fetch_decodes_own_annotation / fetch_first_present   as for the progress storage (E7): json.loads of exactly the body's own
+                           annotations in order; the first that decodes to something -- an EMPTY essence `{}` included -- is returned;
+      store_every_key      ONE json.dumps(essence, compact separators) + "\\n" is written under metadata.annotations[<name>] for EVERY name,
+                           parents created, nothing else changed;   store_marker: the branding marker is stored (one call);
+      build_removes_own_keys   Annotations: build == the base essence minus exactly the annotations named by make_keys(self.key, body=body),
+                           then emptied stanzas removed;
+      status_fetch         Status: json.loads of the value at <field> when it resolves to a non-null value; else None;
+      status_store_exact   patch' == patch with json.dumps(essence) at <field>, missing parents created, nothing else changed;
+      status_build_removes_own_field   build == the base essence minus <field> (+ parents emptied by that), the same object;
+      body_untouched       no method modifies the body.
+    """
+    from pyvc.loader import Shadow
+    from kopf._cogs.configs import diffbase
+    from kopf._cogs.structs import bodies
+    which = ['annotations', 'status'][vc.nondet(2, 'class')]
+    js = JsonStub(vc)
+    dstubs = contract_dicts(vc)
+    stubs = dict(dstubs, **{'json.dumps': js.dumps, 'json.loads': js.loads})
+    if which == 'annotations':
+        method = ['__init__', 'fetch', 'store', 'build'][vc.nondet(4, 'method')]
+        if method == '__init__':
+            sup, me, v1 = [], Opaque('self'), vc.bool('v1')
+            ign = ['spec.x']
+            vc.load(DIFFBASE, 'AnnotationsDiffBaseStorage.__init__', stubs={'super': super_stub(__init__=lambda **kw: sup.append(kw))}).fn(
+                me, prefix='pfx.example.com', key='last', ignored_fields=ign, v1=v1)
+            vc.ensure('configured', len(sup) == 1 and sorted(sup[0]) == ['ignored_fields', 'prefix', 'v1'] and sup[0]['prefix'] == 'pfx.example.com'
+                      and sup[0]['v1'] is v1 and sup[0]['ignored_fields'] is ign and me.key == 'last')
+            return ('init', which)
+        marker = Marker(vc)
+        vc.used('self.make_keys', 'E4b'); vc.used('self._store_marker', 'E2')
+        prefix = vc.str('prefix')
+        if method == 'build':
+            names = [['pfx/last'], ['pfx/last', 'pfx/last-v1']][vc.nondet(2, 'make_keys: v2 only | v2 and v1')]
+            calls, log = [], []
+
+            def make_keys(key, *, body=None):
+                calls.append((key, body))
+                return iter(names)
+            base = {'spec': {'x': 1}, 'metadata': {'annotations': {'pfx/last': '{}', 'user': 'data'}}}
+            body = Opaque('body')
+            extra = resolve(vc.fin('extra_fields', [None, ['status.x']]))
+            me = Opaque('storage', key='last', prefix=prefix, make_keys=make_keys,
+                        remove_annotations=lambda essence, keys: log.append(('remove_annotations', essence, keys)),
+                        remove_empty_stanzas=lambda essence: log.append(('remove_empty_stanzas', essence)))
+            base_calls = []
+
+            def base_build(*, body, extra_fields=None):
+                base_calls.append((body, extra_fields))
+                return base
+            res = vc.load(DIFFBASE, 'AnnotationsDiffBaseStorage.build', stubs={'super': super_stub(build=base_build)}).fn(
+                me, body=body, extra_fields=extra)
+            vc.ensure('keys_from_make_keys', len(calls) == 1 and calls[0][0] == 'last' and calls[0][1] is body)
+            vc.ensure('build_removes_own_keys', len(base_calls) == 1 and base_calls[0][0] is body and base_calls[0][1] is extra and res is base)
+            vc.ensure('build_removes_own_keys', [e[0] for e in log] == ['remove_annotations', 'remove_empty_stanzas']
+                      and log[0][1] is base and set(log[0][2]) == set(names) and log[1][1] is base)
+            return ('build', which, len(names))
+        make_keys = KeyMaker(vc)
+        names = tuple(make_keys.names)
+        me = Opaque('storage', key='last-handled', prefix=prefix, make_keys=make_keys, _store_marker=marker)
+        raw = draw_obj(vc, 'body', ANN + names)
+        assume_annotations_shape(vc, raw, 'body', keys=names)
+        body = bodies.Body(raw)
+        body0 = jt(raw)
+        if method == 'fetch':
+            res = vc.load(DIFFBASE, 'AnnotationsDiffBaseStorage.fetch', stubs=stubs).fn(me, body=body)
+            vc.ensure('keys_from_make_keys', len(make_keys.calls) == 1 and make_keys.calls[0][0] == 'last-handled' and make_keys.calls[0][1] is body)
+            expected, n_loaded = None, 0
+            for k in names:
+                v = value_or_absent(body0, ANN + (k,))
+                if decided(vc, z3.Or(J.is_JAbsent(v), J.is_JNull(v))):
+                    continue
+                vc.ensure('fetch_decodes_own_annotation', n_loaded < len(js.loaded) and holds(vc, js.loaded[n_loaded][0] == v))
+                if n_loaded >= len(js.loaded):
+                    break
+                decoded = js.loaded[n_loaded][1]
+                n_loaded += 1
+                if decoded is not None:
+                    expected = (decoded,)
+                    break
+            vc.ensure('fetch_decodes_own_annotation', n_loaded == len(js.loaded))
+            vc.ensure('fetch_first_present', res is None if expected is None else res is expected[0])
+            vc.ensure('body_untouched', holds(vc, jt(raw) == body0))
+            vc.canary('canary.fetch_always_none', res is None)
+            return ('fetch', which, len(names), n_loaded, res is None)
+        rawp = draw_obj(vc, 'patch', ANN + names)
+        wf_path(vc, rawp, ANN + ('any',), 'present parents on the own path of the patch are mappings')
+        patch0 = jt(rawp)
+        patch = SymPatch(rawp, dstubs)
+        essence = draw_obj(vc, 'essence')
+        vc.load(DIFFBASE, 'AnnotationsDiffBaseStorage.store', stubs=stubs).fn(me, body=body, patch=patch, essence=essence)
+        vc.ensure('keys_from_make_keys', len(make_keys.calls) == 1 and make_keys.calls[0][0] == 'last-handled' and make_keys.calls[0][1] is body)
+        vc.ensure('store_every_key', len(js.dumped) == 1 and js.dumped[0][0] is essence and js.dumped[0][2] == {'separators': (',', ':')})
+        enc = js.dumped[0][3] + '\n'
+        expected = patch0
+        for k in names:
+            _, expected = spec_ensure(expected, ANN + (k,), jt(enc))
+        vc.ensure('store_every_key', holds(vc, jt(rawp) == expected))
+        vc.ensure('store_marker', len(marker.calls) == 1 and marker.calls[0][0] is prefix and marker.calls[0][1] is patch and marker.calls[0][2] is body)
+        vc.ensure('body_untouched', holds(vc, jt(raw) == body0))
+        vc.canary('canary.store_one_key', len(names) == 1)
+        return ('store', which, len(names))
+    # ---- StatusDiffBaseStorage
+    method = ['__init__', 'fetch', 'store', 'build'][vc.nondet(4, 'method')]
+    cfg = vc.nondet(2, 'configuration')
+    kw, field = [({}, ('status', 'kopf', 'last-handled-configuration')), (dict(name='op2', field='status.{name}.last'), ('status', 'op2', 'last'))][cfg]
+    st = diffbase.StatusDiffBaseStorage(**kw)
+    if method == '__init__':
+        sup, me, ign = [], Opaque('self'), ['spec.x']
+        vc.load(DIFFBASE, 'StatusDiffBaseStorage.__init__', stubs={'super': super_stub(__init__=lambda **k: sup.append(k))}).fn(
+            me, ignored_fields=ign, **kw)
+        vc.ensure('configured', me._field == field and type(me._field) is tuple and len(sup) == 1 and sup[0] == {'ignored_fields': ign}
+                  and st.field == field)
+        return ('init', which, cfg)
+    if method == 'build':
+        essence = draw_obj(vc, 'essence', field)
+        wf_path(vc, essence, field, 'no non-mapping on the storage path of the essence')
+        before = jt(essence)
+        body = Opaque('body')
+        extra = resolve(vc.fin('extra_fields', [None, ['status.x']]))
+        base_calls = []
+
+        def base_build(*, body, extra_fields=None):
+            base_calls.append((body, extra_fields))
+            return essence
+        res = vc.load(DIFFBASE, 'StatusDiffBaseStorage.build', stubs=dict(stubs, super=super_stub(build=base_build))).fn(
+            st, body=body, extra_fields=extra)
+        _, removed = spec_remove(before, field)
+        vc.ensure('status_build_removes_own_field', len(base_calls) == 1 and base_calls[0][0] is body and base_calls[0][1] is extra)
+        vc.ensure('status_build_removes_own_field', holds(vc, jt(res) == removed))
+        vc.ensure('status_build_removes_own_field', holds(vc, J.is_JAbsent(value_or_absent(jt(res), field))))
+        vc.canary('canary.status_build_identity', holds(vc, jt(res) == before))
+        return ('build', which, cfg)
+    raw = draw_obj(vc, 'body', field)
+    body = bodies.Body(raw)
+    body0 = jt(raw)
+    if method == 'fetch':
+        res = vc.load(DIFFBASE, 'StatusDiffBaseStorage.fetch', stubs=stubs).fn(st, body=body)
+        v = value_or_absent(body0, field)
+        if decided(vc, z3.Or(J.is_JAbsent(v), J.is_JNull(v))):
+            vc.ensure('status_fetch', res is None and not js.loaded)
+        else:
+            vc.ensure('status_fetch', len(js.loaded) == 1 and holds(vc, js.loaded[0][0] == v) and res is js.loaded[0][1])
+        vc.ensure('body_untouched', holds(vc, jt(raw) == body0))
+        vc.canary('canary.status_fetch_none', res is None)
+        return ('fetch', which, cfg, res is None)
+    patch = draw_obj(vc, 'patch', field)
+    wf_path(vc, patch, field, 'present parents on the own path of the patch are mappings')
+    patch0 = jt(patch)
+    essence = draw_obj(vc, 'essence')
+    vc.load(DIFFBASE, 'StatusDiffBaseStorage.store', stubs=stubs).fn(st, body=body, patch=patch, essence=essence)
+    vc.ensure('status_store_exact', len(js.dumped) == 1 and js.dumped[0][0] is essence and js.dumped[0][2] == {'separators': (',', ':')})
+    _, expected = spec_ensure(patch0, field, jt(js.dumped[0][3]))
+    vc.ensure('status_store_exact', holds(vc, jt(patch) == expected))
+    vc.ensure('body_untouched', holds(vc, jt(raw) == body0))
+    return ('store', which, cfg)
+
+
+# =========================================================================== X8d: dicts.cherrypick / dicts.walk
+@harness('X8d', targets=[f'{DICTS}.cherrypick', f'{DICTS}.walk'], props=['C04', 'C16'],
+         clauses=['copies_exactly_present_fields', 'non_mapping_in_source_is_absent', 'picker_applied', 'source_untouched', 'no_fields_no_change',
+                  'walk_flattens', 'walk_nested_fields'],
+         canaries=['canary.copies_nothing', 'canary.never_raises'],
+         assumes=['X8d: src and dst are arbitrary JSON objects (dst: the present parents of the copied paths are mappings -- in '
+                  'DiffBaseStorage.build dst is derived from the same body); 0..2 fields, each a path of 1..2 arbitrary names or a concrete '
+                  'dotted string; walk: concrete nestings of lists / tuples / generators of mappings, opaque objects and None'])
+def X8d(vc):
+    """
+    dicts.cherrypick(src, dst, fields, picker) -- "copy all specified fields between dicts" -- with resolve / ensure by contract (X5d, X6d):
+      copies_exactly_present_fields   dst' == dst with, for every field IN ORDER that resolves in src, the (picked) source value set at the
+                                      same path (missing parents created); fields absent from src are skipped; nothing else changes;
+      non_mapping_in_source_is_absent a field whose path runs through a NON-MAPPING value of src is absent from src just the same:
+                                      skipped, no exception, the other fields still copied  [known finding F-C04-3: resolve's documented
+                                      TypeError is not caught by cherrypick -- KeyError only -- so DiffBaseStorage.build crashes];
+      picker_applied                  the picker (copy.deepcopy in build) is applied exactly once to each copied source value, and its
+                                      result is what is stored; without a picker the value itself;
+      source_untouched                src is not modified;    no_fields_no_change: fields=None / [] changes nothing.
+    dicts.walk(objs, nested=):
+      walk_flattens        yields the objects of arbitrarily nested lists / tuples / iterables in order; None yields nothing; a mapping
+                           is an object itself (not iterated); any other non-iterable is yielded as it is;
+      walk_nested_fields   after a mapping, the values of its `nested` fields that resolve are yielded (in the order of `nested`);
+                           fields absent from it are skipped.
+    """
+    if vc.nondet(2, 'cherrypick | walk') == 1:
+        ld = vc.load(DICTS, 'walk')
+        a, b, c = {'kind': 'A', 'spec': {'template': {'t': 1}, 'jobTemplate': {'j': 2}}}, {'kind': 'B'}, Opaque('third-party-object')
+        shapes = [(None, []), (a, [a]), (c, [c]), ([a, b], [a, b]), ((a, [b, (c,)], None), [a, b, c]), ([], []), ([[[]], ()], []),
+                  ((x for x in [a, [b]]), [a, b]), ([a, None, [None, b]], [a, b]), (42, [42])]
+        objs, flat = shapes[vc.nondet(len(shapes), 'objs')]
+        nested = resolve(vc.fin('nested', [None, [], ['spec.template'], ['spec.jobTemplate', 'spec.missing', 'spec.template'], [('kind',)]]))
+        outcome, got = outcome_of(lambda: list(ld.fn(objs, nested=nested)) if nested is not None else list(ld.fn(objs)))
+        want = []
+        for o in flat:
+            want.append(o)
+            if isinstance(o, dict):
+                for f in (nested or []):
+                    path = tuple(f.split('.')) if isinstance(f, str) else tuple(f)
+                    cur, ok = o, True
+                    for k in path:
+                        if isinstance(cur, dict) and k in cur:
+                            cur = cur[k]
+                        else:
+                            ok = False
+                            break
+                    if ok:
+                        want.append(cur)
+        vc.ensure('walk_flattens', outcome == 'return' and [x for x in got if any(x is o for o in flat)] == flat
+                  if outcome == 'return' else False)
+        vc.ensure('walk_nested_fields', outcome == 'return' and len(got) == len(want) and all(x is y for x, y in zip(got, want)))
+        return ('walk', len(flat), outcome)
+    stubs = contract_dicts(vc)
+    n = vc.nondet(3, 'fields')
+    fields, names = [], ()
+    for i in range(n):
+        # one field: every form; two fields: (two arbitrary names as a list, then a concrete dotted string)
+        form = vc.nondet(3, 'the field: one name | two names | dotted string') if n == 1 else (1, 2)[i]
+        if form == 2:
+            f = 'spec.x'
+            path = tuple(f.split('.'))
+        else:
+            path = tuple(vc.str(f'f{i}.{j}') for j in range(form + 1))
+            f = path if form == 0 else list(path)
+        fields.append((f, path))
+        names += path
+    src = draw_obj(vc, 'src', names)
+    dst = draw_obj(vc, 'dst', names)
+    for _, path in fields:
+        wf_path(vc, dst, path, 'present parents of the copied paths in dst are mappings')
+    src0, dst0 = jt(src), jt(dst)
+    picked = []
+
+    def picker(x):
+        picked.append(jt(x))
+        return copy_of(x) if isinstance(x, (SJson, dict, list)) else x
+    with_picker = vc.nondet(2, 'picker: none | a copier') == 1
+    arg = None if (n == 0 and vc.nondet(2, 'fields: [] | None') == 1) else [f for f, _ in fields]
+    ld = vc.load(DICTS, 'cherrypick', stubs={'resolve': stubs['dicts.resolve'], 'ensure': stubs['dicts.ensure']})
+    outcome, _ = outcome_of(ld.fn, src, dst, arg, picker) if with_picker else outcome_of(ld.fn, src=src, dst=dst, fields=arg)
+    expected, nonmap_any, copied = dst0, z3.BoolVal(False), []
+    for _, path in fields:
+        found, missing, nonmap, value = spec_resolve(src0, path)
+        _, ensured = spec_ensure(expected, path, value)
+        expected = z3.If(found, ensured, expected)
+        nonmap_any = z3.Or(nonmap_any, nonmap)
+        copied.append((found, value))
+    clean = holds(vc, z3.Not(nonmap_any))
+    vc.ensure('copies_exactly_present_fields', Implies(clean, And(outcome == 'return', holds(vc, jt(dst) == expected))))
+    vc.ensure('non_mapping_in_source_is_absent', Implies(Not(clean), And(outcome == 'return', holds(vc, jt(dst) == expected))),
+              excuse={'F-C04-3': Not(clean)})
+    if with_picker and outcome == 'return':
+        want = [v for f, v in copied if decided(vc, f)]
+        vc.ensure('picker_applied', len(picked) == len(want) and all(holds(vc, p == w) for p, w in zip(picked, want)))
+    else:
+        vc.ensure('picker_applied', not picked or not with_picker or outcome != 'return')
+    vc.ensure('source_untouched', holds(vc, jt(src) == src0))
+    if n == 0:
+        vc.ensure('no_fields_no_change', And(outcome == 'return', holds(vc, jt(dst) == dst0)))
+    vc.canary('canary.copies_nothing', holds(vc, jt(dst) == dst0))
+    vc.canary('canary.never_raises', outcome == 'return')
+    return ('cherrypick', n, outcome)
+
+
+# =========================================================================== E3d: diffs.diff_iter / reduce_iter, depth 1, symbolic leaves
+DIFFS = 'kopf._cogs.structs.diffs'
+E3D_KEYS = ('x', 'y')
+
+
+def draw_leaf(vc, name):
+    """A leaf of a depth-1 document: None, or an arbitrary JSON value that is NOT a mapping (string, number, list -- lists are
+    atomic for the diff) and not a bool (a bool against the equal int is the known finding F-C04-2, bounded check E3)."""
+    if vc.nondet(2, f'{name} is None?') == 0:
+        return None
+    v = vc.json(name)
+    if vc.concrete:
+        if isinstance(v, (Absent, dict, bool)) or v is None:
+            vc.assume(False, 'leaf kind')
+        return materialize(v)
+    t = v.term
+    vc.assume(z3.And(z3.Not(J.is_JAbsent(t)), z3.Not(J.is_JNull(t)), z3.Not(J.is_JObj(t)), z3.Not(J.is_JBool(t))), 'a non-null, non-mapping, non-bool leaf')
+    return v
+
+
+def draw_depth1(vc, name):
+    """None | a leaf | a mapping over a subset of {x, y} with leaves (None included) -- depth <= 1."""
+    kind = vc.nondet(3, f'{name}: None | leaf | mapping')
+    if kind == 0:
+        return None
+    if kind == 1:
+        v = draw_leaf(vc, name)
+        if v is None:
+            vc.assume(False, 'None is the first kind')
+        return v
+    subset = _subsets(E3D_KEYS)[vc.nondet(4, f'{name}: keys')]
+    return {k: draw_leaf(vc, f'{name}.{k}') for k in subset}
+
+
+def leaf_same(u, v):
+    """`≅` on leaves: equal values; absent == None"""
+    if u is None or v is None:
+        return u is None and v is None
+    return Eq(u, v) if isinstance(u, SV) or isinstance(v, SV) else (type(u) is type(v) and u == v)
+
+
+def ref_diff(a, b, scope_left=True, scope_right=True):
+    """The reference diff of two depth-1 documents (written from the docstring of diffs.diff_iter and of DiffScope):
+    -> list of (op, field, old, new, condition-under-which-the-item-exists)."""
+    if not (isinstance(a, dict) and isinstance(b, dict)):
+        both_none = a is None and b is None
+        same = True if both_none else (False if (a is None or b is None or isinstance(a, dict) or isinstance(b, dict)) else leaf_same(a, b))
+        op = 'add' if a is None else 'remove' if b is None else 'change'
+        return [(op, (), a, b, Not(same))]
+    out = []
+    for k in sorted(set(a) | set(b)):
+        if k in a and k not in b and not scope_left:
+            continue
+        if k in b and k not in a and not scope_right:
+            continue
+        u, v = a.get(k), b.get(k)
+        op = 'add' if u is None else 'remove' if v is None else 'change'
+        out.append((op, (k,), u, v, Not(leaf_same(u, v))))
+    return out
+
+
+def items_match(vc, got, ref):
+    """the produced items == the reference items whose condition holds (as a set keyed by field; values by Eq)"""
+    got = [tuple(i) for i in got]
+    conds = []
+    fields = [g[1] for g in got]
+    conds.append(len(set(fields)) == len(fields))
+    for op, field, old, new, exists in ref:
+        mine = [g for g in got if tuple(g[1]) == tuple(field)]
+        conds.append(Iff(len(mine) >= 1, exists))
+        for g in mine:
+            conds.append(And(str(g[0]) == op, leaf_same(g[2], old) if not isinstance(old, dict) else g[2] is old,
+                             leaf_same(g[3], new) if not isinstance(new, dict) else g[3] is new))
+    conds.append(all(any(tuple(g[1]) == tuple(r[1]) for r in ref) for g in got))
+    return And(True, *conds)
+
+
+@harness('E3d', targets=[f'{DIFFS}.diff_iter', f'{DIFFS}.reduce_iter'], props=['C04'],
+         clauses=['empty_iff_equal', 'items_exact', 'scoped', 'reduce_is_diff_of_resolved', 'pure'],
+         canaries=['canary.never_empty', 'canary.always_empty'],
+         trusted=['frozenset key algebra / structural pattern matching of CPython on real dicts of <= 2 keys'],
+         assumes=['E3d: DEPTH BOUND 1 -- a and b are None, a non-mapping leaf, or a mapping over a subset of {x, y} whose values are None or '
+                  'non-mapping leaves; leaves are ARBITRARY symbolic JSON values (strings, numbers, lists of anything) except bools '
+                  '(F-C04-2). Deeper documents: the bounded E3 (recursion over arbitrary trees is outside the engine)'])
+def E3d(vc):
+    """
+    What a deductive harness reaches of diffs.diff_iter / reduce_iter beyond the bounded E3 -- documents of depth <= 1 with
+    symbolic leaves (`≅`: equality where an absent key and None are the same, E3's reading):
+      empty_iff_equal   diff(a, b) is empty  <=>  a ≅ b;
+      items_exact       the items are exactly: for two mappings one item per key whose values differ (field = (key,), old/new = the two
+                        values, None for an absent one), otherwise one root item () when the values differ; op = add / remove / change
+                        according to which side is None; so applying the items to a yields b (≅);
+      scoped            DiffScope.LEFT ignores keys only b has, RIGHT ignores keys only a has (application.patch_and_check compares
+                        the patch with the result LEFT-scoped);
+      reduce_is_diff_of_resolved   reduce(diff(a, b), p) has exactly the items of diff(resolve(a, p), resolve(b, p)) for p in
+                        {(), (x,), (y,), (x, z), (q,)} -- the narrowing handed to field handlers;
+      pure              a and b are not modified.
+    """
+    from kopf._cogs.structs import diffs
+    a, b = draw_depth1(vc, 'a'), draw_depth1(vc, 'b')
+    a0, b0 = _snapshot(a), _snapshot(b)
+    ld = vc.load(DIFFS, 'diff_iter')
+    scope = resolve(vc.fin('scope', [diffs.DiffScope.FULL, diffs.DiffScope.LEFT, diffs.DiffScope.RIGHT]))
+    items = list(ld.fn(a, b, scope=scope)) if scope is not diffs.DiffScope.FULL else list(ld.fn(a, b))
+    ref = ref_diff(a, b, scope_left=diffs.DiffScope.LEFT in scope, scope_right=diffs.DiffScope.RIGHT in scope)
+    clause = 'items_exact' if scope is diffs.DiffScope.FULL else 'scoped'
+    vc.ensure(clause, items_match(vc, items, ref))
+    vc.ensure(clause, all(isinstance(i, diffs.DiffItem) and isinstance(i.field, tuple) for i in items))
+    if scope is diffs.DiffScope.FULL:
+        same = And(True, *[Not(r[4]) for r in ref])
+        vc.ensure('empty_iff_equal', Iff(len(items) == 0, same))
+        vc.canary('canary.never_empty', len(items) > 0)
+        vc.canary('canary.always_empty', len(items) == 0)
+        # ---- reduce
+        paths = [(), ('x',), ('y',), ('x', 'z'), ('q',)]
+        p = paths[vc.nondet(len(paths), 'path')]
+        stubs = contract_dicts(vc)
+        ldr = vc.load(DIFFS, 'reduce_iter', stubs={'diff_iter': ld.fn, 'dicts.resolve': stubs['dicts.resolve']})
+        reduced = list(ldr.fn(diffs.Diff(items), p))
+
+        def resolved(d):
+            for k in p:
+                if not isinstance(d, dict) or k not in d:
+                    return None
+                d = d[k]
+            return d
+        vc.ensure('reduce_is_diff_of_resolved', items_match(vc, reduced, ref_diff(resolved(a), resolved(b))))
+    vc.ensure('pure', And(_jeq(vc, a, a0), _jeq(vc, b, b0)))
+    return ('diff', len(items))
+
+
+# =========================================================================== E9b: DiffBaseStorage.build -- the ignored_fields tail
+def ref_remove(d, path):
+    """Reference removal (plain Python, written from the docstring of dicts.remove): delete the key at the path; then every
+    parent on the path that is an empty mapping, innermost first.  A non-mapping on the way: TypeError."""
+    if len(path) == 1:
+        if not isinstance(d, dict):
+            raise TypeError(path)
+        d.pop(path[0], None)
+        return
+    if not isinstance(d, dict):
+        raise TypeError(path)
+    if path[0] not in d:
+        return
+    ref_remove(d[path[0]], path[1:])
+    if d[path[0]] == {}:
+        del d[path[0]]
+
+
+@harness('E9b', targets=[f'{DIFFBASE}.DiffBaseStorage.build', f'{DIFFBASE}.DiffBaseStorage.__init__',
+                         f'{PROGRESS}.StatusProgressStorage.field', f'{PROGRESS}.StatusProgressStorage.touch_field',
+                         f'{DIFFBASE}.StatusDiffBaseStorage.field'],
+         props=['C04', 'C16'],
+         clauses=['ignored_fields_removed', 'undeletable_ignored_field_skipped', 'ignored_fields_materialised', 'field_setters', 'pure'],
+         canaries=['canary.nothing_ignored'],
+         trusted=['copy.deepcopy: an equal, unshared copy of real containers (leaves are immutable values)',
+                  'dicts.cherrypick / dicts.remove / remove_empty_stanzas / _detect_marked_prefixes: the real code, run natively on a concrete '
+                  'structure with symbolic leaves (their contracts: X8d, X7d, E2, E2b)'],
+         assumes=['E9b: ONE concrete body structure (labels, a user annotation, spec.x / spec.keep / spec.deep.a, a scalar `data`, status, system '
+                  'metadata) with symbolic leaves; ignored_fields over 8 configurations (none, one, nested emptying its parent, absent, through '
+                  'a scalar, tuple form, a whole stanza, several); extra_fields none / one status field'])
+def E9b(vc):
+    """
+    The tail of DiffBaseStorage.build -- the `ignored_fields` of a diff-base storage (a supported configuration of C04) -- on a concrete
+    body structure with arbitrary leaves, and the small configuration plumbing:
+      ignored_fields_removed   build(body) == the essence without ignored fields (E1) minus every ignored field, minus the parents that
+                               this emptied; everything else is kept;
+      undeletable_ignored_field_skipped   an ignored field whose path runs through a non-mapping ("does not support item deletion") is
+                               skipped without an error, the others are still removed;
+      ignored_fields_materialised   the constructor keeps list(ignored_fields or []) (an iterator may be given: it is consumed once);
+      field_setters            assigning `.field` / `.touch_field` of the Status storages re-parses the dotted path with {name} filled in;
+      pure                     the body is not modified.
+    """
+    from kopf._cogs.configs import diffbase
+    from kopf._cogs.structs import bodies
+    if vc.nondet(2, 'build | plumbing') == 1:
+        me = Opaque('self')
+        given = [None, [], ['spec.x', ('a', 'b')]][vc.nondet(3, 'ignored_fields')]
+        as_iter = given is not None and vc.nondet(2, 'list | iterator') == 1
+        vc.load(DIFFBASE, 'DiffBaseStorage.__init__', stubs={'super': super_stub(__init__=lambda: None)}).fn(
+            me, iter(given) if as_iter else given)
+        vc.ensure('ignored_fields_materialised', type(me.ignored_fields) is list and me.ignored_fields == list(given or []))
+        for mod, cls, attr, store in ((PROGRESS, 'StatusProgressStorage', 'field', '_field'),
+                                      (PROGRESS, 'StatusProgressStorage', 'touch_field', '_touch_field'),
+                                      (DIFFBASE, 'StatusDiffBaseStorage', 'field', '_field')):
+            setter = vc.load(mod, f'{cls}.{attr}', strip_decorators=(f'{attr}.setter',))     # the last definition of the name: the setter
+            for spec, want in (('status.{name}.x', ('status', 'op2', 'x')), (('a', 'b'), ('a', 'b')), (['c'], ('c',))):
+                me = Opaque('self', _name='op2')
+                setter.fn(me, spec)
+                vc.ensure('field_setters', getattr(me, store, None) == want and type(getattr(me, store, None)) is tuple)
+        return ('plumbing',)
+    leaf = {n: draw_leaf(vc, n) if n in ('x', 'keep') else vc.str(n) for n in ('x', 'keep', 'a', 'data', 'label', 'note')}
+    labels = [{'l': leaf['label']}, {}][vc.nondet(2, 'labels: one | an empty mapping')]
+    raw = {'apiVersion': 'example.com/v1', 'kind': 'KopfExample',
+           'metadata': {'name': 'obj', 'uid': 'u1', 'resourceVersion': '5', 'labels': labels, 'annotations': {'note': leaf['note']}},
+           'spec': {'x': leaf['x'], 'keep': leaf['keep'], 'deep': {'a': leaf['a']}}, 'data': leaf['data'],
+           'status': {'observed': 1, 'kopf': {'dummy': 'then'}}}
+    raw0 = _snapshot(raw)
+    configs = [[], ['spec.x'], ['spec.deep.a'], ['nope.deep', 'spec.nothing'], ['data.sub', 'spec.x'], [('spec', 'keep'), 'metadata.labels'],
+               ['spec'], ['spec.x', 'spec.keep', 'spec.deep.a', 'metadata.annotations.note']]
+    ignored = configs[vc.nondet(len(configs), 'ignored_fields')]
+    extra = [None, ['status.observed']][vc.nondet(2, 'extra_fields')]
+    st = diffbase.StatusDiffBaseStorage(ignored_fields=list(ignored))
+    ld = vc.load(DIFFBASE, 'DiffBaseStorage.build', stubs={'copy.deepcopy': _snapshot})
+    outcome, res = outcome_of(ld.fn, st, body=bodies.Body(raw), extra_fields=extra)
+    # reference: the essence without ignored fields (as E1 states it), then the reference removal
+    want = {'metadata': {'labels': {'l': leaf['label']}, 'annotations': {'note': leaf['note']}} if labels else {'annotations': {'note': leaf['note']}},
+            'spec': {'x': leaf['x'], 'keep': leaf['keep'], 'deep': {'a': leaf['a']}}, 'data': leaf['data']}
+    unfiltered = _snapshot(want)
+    if extra:
+        want['status'] = {'observed': 1}
+    skipped = []
+    for f in ignored:
+        path = tuple(f.split('.')) if isinstance(f, str) else tuple(f)
+        try:
+            ref_remove(want, path)
+        except TypeError:
+            skipped.append(f)
+    ok = And(outcome == 'return', _jeq(vc, res, want) if outcome == 'return' else False)
+    vc.ensure('undeletable_ignored_field_skipped' if skipped else 'ignored_fields_removed', ok)
+    if not skipped:
+        vc.ensure('undeletable_ignored_field_skipped', True)
+    else:
+        vc.ensure('ignored_fields_removed', True)
+    vc.ensure('pure', _jeq(vc, raw, raw0))
+    if extra:
+        unfiltered['status'] = {'observed': 1}
+    vc.canary('canary.nothing_ignored', And(outcome == 'return', _jeq(vc, res, unfiltered) if outcome == 'return' else False))
+    return ('build', len(ignored), outcome)
